@@ -287,6 +287,68 @@ def fixed_fv(tier):
     return out
 
 
+CL = 128 * 1024
+
+
+def gen_crypto(rng):
+    """CRYPTO frames that fill the buffer in order, out of order and around consumed + limit, mixed
+    with reads of the TLS stack"""
+    case = []
+    con = 0      # consumed (estimate: exact as long as data is contiguous)
+    hi = 0       # contiguous end
+    mx = 0
+    for _ in range(rng.choice([1, 2, 3, 5, 8, 12, 20])):
+        r = rng.random()
+        if r < 0.70:
+            m = rng.random()
+            if m < 0.45:        # in order, large: this is how the buffer fills up
+                off, ln = hi, rng.choice([65536, 65536, 65535, 32768, 4096, 1000, rng.randrange(0, 65537)])
+            elif m < 0.70:      # ending at consumed + limit -2 .. +2
+                e = max(0, con + CL + rng.choice([-2, -1, 0, 0, 1, 1, 2]))
+                ln = min(e, rng.choice([0, 1, 2, 100, 65536]))
+                off = e - ln
+            elif m < 0.80:      # ending at consumed + 4096 +- 1
+                e = max(0, con + 4096 + rng.choice([-1, 0, 1]))
+                ln = min(e, rng.choice([0, 1, 4096]))
+                off = e - ln
+            elif m < 0.90:      # out of order / overlapping
+                off, ln = rng.randrange(0, mx + 5000), rng.randrange(0, 3000)
+            else:
+                off, ln = rng.choice([VMAX, VMAX - 1, VMAX - 65536, 1 << 40, rng.randrange(1 << 62)]), rng.choice([0, 1, 2, 65536])
+            case += [1, off, ln]
+            e = off + ln
+            if e <= con + CL and e <= VMAX:
+                mx = max(mx, e)
+                if off <= hi:
+                    hi = max(hi, e)
+        else:
+            n = rng.choice([0, 1, 100, 4096, 65536, 70000, CL, 1 << 30, rng.randrange(0, 200000)])
+            case += [2, n]
+            con = min(hi, con + n)
+    return case
+
+
+def fixed_crypto(tier):
+    out = []
+    full = [1, 0, 65536, 1, 65536, 65536]            # exactly 128 KiB in order
+    for d in (-1, 0, 1, 2):
+        out.append([1, 0, 65536, 1, 65536, 65535, 1, 131071, max(0, 1 + d)])
+        out.append(full + [1, CL + d, 0] if CL + d >= 0 else full)
+        out.append(full + [1, CL, max(0, d)])
+        out.append(full + [1, CL, 1 + max(0, d), 2, 10])
+        out.append(full + [2, 10, 1, CL, 10 + d, 1, CL + 10, 1])
+        out.append([1, CL + d - 5, 5])
+        out.append([1, 4096 + d - 1, 1])
+    out.append(full + [1, CL, 65536])                # the third 64 KiB frame in order
+    out.append(full + [1, CL, 1])
+    out.append(full + [2, 1 << 30, 1, CL, 65536, 1, CL + 65536, 65536, 1, CL + 131072, 1])
+    out.append([1, 100000, 31072, 1, 100000, 31073])
+    out.append([1, VMAX, 1])
+    out.append([1, VMAX, 0])
+    out.append([1, VMAX - 65535, 65536])
+    return out
+
+
 def _tolerant_ok(comp, p):
     import os, subprocess
     from run_check import hexline, BUILD
@@ -349,13 +411,18 @@ registry.register("C04", {
          "valid": valid_st,
          "nontrivial": lambda case, out: len(out) >= 2 and any(v not in (0, 1) for v in out),
          "histogram": hist_st},
+        {"name": "crypto", "gen": gen_crypto, "fixed": fixed_crypto, "quick": 3000, "thorough": 100000,
+         "valid": lambda c: all(0 <= v <= VMAX for v in c),
+         "nontrivial": lambda case, out: len(out) >= 3,
+         "histogram": lambda cases, outs: {"closed_by_crypto_buffer_exceeded": sum(1 for o in outs if o.split()[-1:] == ["d"]),
+                                           "max_in_order_buffered": max([int(t, 16) for o in outs for t in o.split() if not t.startswith("-")] + [0])}},
         {"name": "fv", "gen": gen_fv, "fixed": fixed_fv, "quick": 5000, "thorough": 200000,
          "valid": lambda c: len(c) == 4 and all(0 <= v <= VMAX for v in c),
          "nontrivial": lambda case, out: out != [0],
          "histogram": lambda cases, outs: {"accepted": sum(1 for o in outs if o.strip() == "0"), "rejected": sum(1 for o in outs if o.strip() != "0")}},
     ],
     "classify": classify,
-    "rule": "rx: corpus + boundary families (for stream windows 0,1,2,10,100 and connection windows 0,1,w,w+1,2w: frames ending at window-1, window, window+1 with lengths 0/1/all, with and without FIN, followed by read + transmit; two streams sharing the connection window; final-size games: FIN then more data / other FIN / smaller FIN, RESET_STREAM with equal, other, smaller and limit-edge sizes, empty stream, offsets at 2^62-1, u32 window edge, window sliding after read + MAX_* transmission + ack/loss, stop_sending then RESET_STREAM) + seeded random sequences of 1..30 operations over 1..4 streams (STREAM frames in order / ending at the stream limit +-2 / ending at the connection limit +-2 / overlapping / around the final size / huge offsets; RESET_STREAM at received size, final size +-2, limit +-2, random; reads of 0..2^20; stop_sending; transmit; ack; loss; STREAM_DATA_BLOCKED), windows incl. 0, 1 and 2^32-1; a case is non-trivial when something other than plain acceptance happens (bytes delivered, an error, a MAX_* frame); header = window of peer-initiated streams, window of locally opened streams (different values included), connection window. st: boundary families (every frame kind STREAM / STREAM+FIN / RESET_STREAM / STREAM_DATA_BLOCKED / MAX_STREAM_DATA / STOP_SENDING on every stream class -- peer bidi, peer uni, local bidi, local uni -- unopened, opened, at limit-1, limit, limit+1 for limits 0,1,5, both endpoint roles; closing c of L streams by FIN or RESET + read, then timers / transmit / loss / ack / 200 ms steps and frames at the moved limit) + seeded random sequences of 1..40 operations with indices clustered at the (moving) limit +-2 and at the number of locally opened streams +-1. fv: MAX_STREAMS / STREAMS_BLOCKED values around 2^60 and NEW_CONNECTION_ID (sequence, retire_prior_to, length) around retire_prior_to = sequence +-1 and lengths 0,1,20,21,255",
+    "rule": "rx: corpus + boundary families (for stream windows 0,1,2,10,100 and connection windows 0,1,w,w+1,2w: frames ending at window-1, window, window+1 with lengths 0/1/all, with and without FIN, followed by read + transmit; two streams sharing the connection window; final-size games: FIN then more data / other FIN / smaller FIN, RESET_STREAM with equal, other, smaller and limit-edge sizes, empty stream, offsets at 2^62-1, u32 window edge, window sliding after read + MAX_* transmission + ack/loss, stop_sending then RESET_STREAM) + seeded random sequences of 1..30 operations over 1..4 streams (STREAM frames in order / ending at the stream limit +-2 / ending at the connection limit +-2 / overlapping / around the final size / huge offsets; RESET_STREAM at received size, final size +-2, limit +-2, random; reads of 0..2^20; stop_sending; transmit; ack; loss; STREAM_DATA_BLOCKED), windows incl. 0, 1 and 2^32-1; a case is non-trivial when something other than plain acceptance happens (bytes delivered, an error, a MAX_* frame); header = window of peer-initiated streams, window of locally opened streams (different values included), connection window. st: boundary families (every frame kind STREAM / STREAM+FIN / RESET_STREAM / STREAM_DATA_BLOCKED / MAX_STREAM_DATA / STOP_SENDING on every stream class -- peer bidi, peer uni, local bidi, local uni -- unopened, opened, at limit-1, limit, limit+1 for limits 0,1,5, both endpoint roles; closing c of L streams by FIN or RESET + read, then timers / transmit / loss / ack / 200 ms steps and frames at the moved limit) + seeded random sequences of 1..40 operations with indices clustered at the (moving) limit +-2 and at the number of locally opened streams +-1. crypto: CRYPTO frames filling the buffer in order with 64 KiB frames up to and beyond 128 KiB, frames ending at consumed + limit -2..+2 and consumed + 4096 +-1, out-of-order and overlapping frames, offsets near 2^62, reads of 0..2^30 bytes in between. fv: MAX_STREAMS / STREAMS_BLOCKED values around 2^60 and NEW_CONNECTION_ID (sequence, retire_prior_to, length) around retire_prior_to = sequence +-1 and lengths 0,1,20,21,255",
     "assumptions": [
         "the judge takes consumed + configured window (the value the endpoint is committed to advertise) as the advertised limit; between the largest MAX_* actually transmitted and that value a frame may be accepted or refused with FLOW_CONTROL_ERROR",
         "frames for a receive half that is closed (application stop_sending, accepted RESET_STREAM, read to the end) may be ignored instead of rejected",
@@ -366,5 +433,5 @@ registry.register("C04", {
     "trusted_base": ["no axioms: Print Assumptions reports 'Closed under the global context' for every C04 theorem",
                      "tools/genfam_C04.py (parser of space/*.rs for the frame permission matrix)",
                      "/repo verif_hooks/recv.rs (driver around stream::Manager), harness/h_transport/src/bin/C04.rs"],
-    "explanation": "frame x packet-space permission matrix parsed from space/*.rs equals RFC 9000 Table 3 (theorem by vm_compute over the finite table); receive-side flow control / final size: Coq model of IncrementalValueSync + ReceiveStream + IncomingConnectionFlowController + Reassembler cursors with theorems C04_rx_rejects_exactly and C04_advertised_credit_bound, tied to the source by differential execution against the real stream manager; independent RFC judgement applied to every implementation output; stream limits / stream states: model of RemoteInitiated + TokenBucket + the manager's open/direction checks with theorems C04_streams_rejects_exactly and C04_max_streams_bound; frame value validators: model + proved judge (C04_fv_judge_model)",
+    "explanation": "frame x packet-space permission matrix parsed from space/*.rs equals RFC 9000 Table 3 (theorem by vm_compute over the finite table); receive-side flow control / final size: Coq model of IncrementalValueSync + ReceiveStream + IncomingConnectionFlowController + Reassembler cursors with theorems C04_rx_rejects_exactly and C04_advertised_credit_bound, tied to the source by differential execution against the real stream manager; independent RFC judgement applied to every implementation output; stream limits / stream states: model of RemoteInitiated + TokenBucket + the manager's open/direction checks with theorems C04_streams_rejects_exactly and C04_max_streams_bound; frame value validators: model + proved judge (C04_fv_judge_model); CRYPTO receive buffer: model of CryptoStream::on_crypto_frame with theorems C04_crypto_rejects_exactly / C04_crypto_buffer_bound, limit generated from crypto_stream.rs",
 })
